@@ -137,6 +137,63 @@ def run(ctx: Ctx) -> None:
         got = d.get(key)
         ctx.check(isinstance(got, list) and [tuple(p) for p in got] == pairs, "R1b", f"{key.upper()} pairs", repo.loc("pprint", repo.func(qual)), "pairs come back", f"{key.upper()} {pairs} comes back as {got!r} from lines {lines!r}")
 
+    # ---- R5 history independence ------------------------------------------------------------------
+    ctx.rule("R5", "what process_attribute writes for (type, keyword, value) is the same on a printer that has already written other values as on a new one (values that are equal as text but differ in type, the same value under another keyword or object type)", 20)
+    I5 = e.interp(allow_fork=False)
+    lp = repo.loc("pprint", repo.func("pprint.PrettyPrinter.process_attribute"))
+
+    def written(calls, q):
+        holder: dict = {}
+        res = []
+        for t, k, v in calls:
+            def make(t=t, k=k, v=v):
+                if "pp" not in holder:
+                    holder["pp"] = models.printer(I5, quote=q, indent=0)
+                return holder["pp"], [t, k, v, 0, 0], {}
+
+            outs = I5.explore("pprint.PrettyPrinter.process_attribute", make)
+            if len(outs) != 1:
+                raise AnalysisError(f"process_attribute forks on concrete {t}.{k}={v!r}")
+            res.append((outs[0].kind, outs[0].value if outs[0].kind == "return" else outs[0].exc))
+        return res
+
+    sequences = []
+    by_key: dict = {}
+    for t in S.types():
+        if t == "symbolset":
+            continue
+        for k, node in sorted(S.slots(t).items()):
+            if k in special_keys:
+                continue
+            names = {vc.name: vc for vc in printer.classes_for(S, t, k, node)}
+            by_key.setdefault(k, []).append((t, names))
+            if "INT" in names and "STR_PLAIN" in names:
+                sequences.append((f"{t}.{k}: 2 then '2'", [(t, k, 2), (t, k, "2")]))
+                sequences.append((f"{t}.{k}: '2' then 2", [(t, k, "2"), (t, k, 2)]))
+            enum = next((n_[5:] for n_ in names if n_.startswith("ENUM:")), None)
+            if enum:
+                for k2, node2 in sorted(S.slots(t).items()):
+                    if k2 != k and k2 not in special_keys and any(vc.name == "STR_PLAIN" for vc in printer.classes_for(S, t, k2, node2)):
+                        sequences.append((f"{t}.{k} then {t}.{k2}: {enum!r}", [(t, k, enum), (t, k2, enum)]))
+                        sequences.append((f"{t}.{k2} then {t}.{k}: {enum!r}", [(t, k2, enum), (t, k, enum)]))
+                        break
+    for k, lst in sorted(by_key.items()):
+        for (t1, n1) in lst:
+            enum = next((n_[5:] for n_ in n1 if n_.startswith("ENUM:")), None)
+            if not enum:
+                continue
+            for (t2, n2) in lst:
+                if t2 != t1 and "STR_PLAIN" in n2 and not any(n_.startswith("ENUM:") for n_ in n2):
+                    sequences.append((f"{t1}.{k} then {t2}.{k}: {enum!r}", [(t1, k, enum), (t2, k, enum)]))
+                    sequences.append((f"{t2}.{k} then {t1}.{k}: {enum!r}", [(t2, k, enum), (t1, k, enum)]))
+                    break
+    for name, calls in sequences:
+        for q in ('"',):
+            got = written(calls, q)[-1]
+            fresh = written(calls[-1:], q)[0]
+            ctx.check(got == fresh, "R5", name, lp, f"{fresh[1]!r}", f"{calls[-1][0]}.{calls[-1][1]} = {calls[-1][2]!r} is written as {got[1]!r} after {calls[0][0]}.{calls[0][1]} = {calls[0][2]!r} was written by the same printer, but as {fresh[1]!r} by a new one: the text (and the value read back) depends on what was printed before")
+    ctx.units["history_sequences"] = len(sequences)
+
     # ---- R4 number formats ------------------------------------------------------------------------
     ctx.rule("R4", "every textual shape Python's str() gives an int or a finite float (plain, signed, decimal, exponent with either sign) is read back by the lexer as exactly one number token of the right kind in a value position", 12)
     st_val, _ = G.state_after([next(iter(["MAP"])), "UNQUOTED_STRING"]) if "MAP" in G.terms else (None, None)
@@ -211,6 +268,9 @@ def run(ctx: Ctx) -> None:
                     bad.append("iteration over " + norm(it)[:40])
                 if isinstance(it, ast.Name) and it.id in ("SINGLETON_COMPOSITE_NAMES", "COMPOSITE_NAMES", "OBJECT_LIST_KEYS", "COMPLEX_TYPES", "SYMBOL_ATTRIBUTES"):
                     bad.append("iteration over the set " + it.id)
+        from ..pyfacts import unordered_iterations
+
+        bad += unordered_iterations(repo, q, fn)
         if q == "dictutils.dict_move_to_end":
             ctx.ok("R3", q, repo.loc(q.split(".")[0], fn), "tabled: only reached under separate_complex_types (C06)", nontrivial=False)
             continue
